@@ -14,9 +14,10 @@ class of the module (inheritance resolved here with a C3 linearisation over the 
 * ``hashByValue`` the effective ``_compute_hash`` does not call ``hash_array``, or ``mici.utils.hash_array`` has
                   exactly the expected shape (real dtypes cast to float64 before hashing the bytes), i.e. array
                   hashes are functions of the VALUES like ``np.array_equal``
-* ``dunderOk``    the effective ``__eq__`` / ``__hash__`` are ``Matrix``'s and have the expected
-                  dispatch shape (``other is self or (same class and self._check_equality(other))``,
-                  ``_hash`` memo around ``_compute_hash``)
+* ``dunderOk``    the effective ``__eq__`` / ``__hash__`` / ``__getstate__`` are ``Matrix``'s and have the expected
+                  shape (``other is self or (same class and self._check_equality(other))``, ``_hash`` memo around
+                  ``_compute_hash``, pickled state = ``__dict__`` with ``_hash`` reset to ``None``); no other
+                  copy / pickle hooks
 * ``params`` / ``caches`` / ``frozen``  attributes stored on ``self`` by the ``__init__`` chain
                   (``super().__init__`` followed along the MRO, keyword arguments bound to the next
                   ``__init__``'s formals, the rest stored by ``Matrix.__init__``): ``caches`` are
@@ -66,6 +67,12 @@ def __eq__(self, other):
     return other is self or (
         other.__class__ == self.__class__ and self._check_equality(other)
     )
+"""
+EXPECTED_GETSTATE = """
+def __getstate__(self):
+    state = self.__dict__.copy()
+    state["_hash"] = None
+    return state
 """
 EXPECTED_HASH_ARRAY = """
 def hash_array(array):
@@ -738,6 +745,10 @@ def extract(repo: Path) -> list[dict]:
             eq_owner == "Matrix" and h_owner == "Matrix"
             and isinstance(eq_fn, ast.FunctionDef) and isinstance(h_fn, ast.FunctionDef)
             and _same_dump(eq_fn, EXPECTED_EQ) and _same_dump(h_fn, EXPECTED_HASH)
+            and _lookup(mro, classes, "__getstate__")[0] == "Matrix"
+            and isinstance(_lookup(mro, classes, "__getstate__")[1], ast.FunctionDef)
+            and _same_dump(_lookup(mro, classes, "__getstate__")[1], EXPECTED_GETSTATE)
+            and all(_lookup(mro, classes, n)[0] is None for n in ("__reduce__", "__reduce_ex__", "__setstate__", "__copy__", "__deepcopy__"))
             and _lookup(mro, classes, "__ne__")[0] is None
             and _lookup(mro, classes, "__getattr__")[0] is None
             and _lookup(mro, classes, "__getattribute__")[0] is None
